@@ -497,8 +497,13 @@ impl Run {
             if let Some(e) = sm.get("evaluations").and_then(|x| x.as_u64()) {
                 self.merged.evals += e;
             }
-            if let Some(n) = sm.get("distinct_nontrivial").and_then(|x| x.as_u64()) {
-                self.leg_nontrivial += n as usize;
+            // distinct cases are only added for legs whose workload runs nowhere else (the C-interface
+            // children); the sanitizer / interpreter / unchecked legs re-execute (a subset of) the cases of
+            // the native run under another build, which adds executions but no new distinct cases
+            if leg.starts_with("capi") {
+                if let Some(n) = sm.get("distinct_nontrivial").and_then(|x| x.as_u64()) {
+                    self.leg_nontrivial += n as usize;
+                }
             }
             if let Some(ss) = sm.get("samples").and_then(|x| x.as_arr()) {
                 for x in ss {
